@@ -105,7 +105,7 @@ OpField(l) == LET r == RestOf(l) IN IF FirstIdx(r, SP) = 0 THEN r ELSE SubSeq(r,
 OpOf(l)   == IF OpField(l) = <<>> THEN "" ELSE OpField(l)[1]
 AttrOf(l) == LET f == OpField(l) IN IF HasAttrs /\ Len(f) >= 2 /\ f[2] = "." THEN SubSeq(f, 3, Len(f)) ELSE <<>>
 ArgToks(l) == LET r == RestOf(l) IN IF FirstIdx(r, SP) = 0 THEN <<>> ELSE SubSeq(r, FirstIdx(r, SP) + 1, Len(r))
-ArgsOf(l) == IF ArgToks(l) = <<>> THEN <<>> ELSE [i \in DOMAIN SplitOn(ArgToks(l), COMMA) |-> Trim(SplitOn(ArgToks(l), COMMA)[i])]
+ArgsOf(l) == LET a == ArgToks(l) IN IF a = <<>> THEN <<>> ELSE LET p == SplitOn(a, COMMA) IN [i \in DOMAIN p |-> Trim(p[i])]
 RECURSIVE Glue(_)
 Glue(ts) == IF ts = <<>> THEN "" ELSE ts[1] \o Glue(Tail(ts))
 LabName(l) == Glue(LabOf(l))
@@ -114,8 +114,10 @@ IsCtrlArg(a) == Len(a) >= 2 /\ a[1] = "{" /\ a[Len(a)] = "}"
 CtrlName(a) == IF Len(a) = 3 THEN a[2] ELSE ""
 
 \* --- integer expressions the macro processor itself evaluates (REPT count, WHILE/IF condition, SET) --
-IsNumTok(t) == \E i \in 0..MaxNum : ToString(i) = t
-NumVal(t) == CHOOSE i \in 0..MaxNum : ToString(i) = t
+NumSeq == [i \in 1..(MaxNum + 1) |-> ToString(i - 1)]        \* constant: evaluated once
+NumSet == {NumSeq[i] : i \in DOMAIN NumSeq}
+IsNumTok(t) == t \in NumSet
+NumVal(t) == (CHOOSE i \in DOMAIN NumSeq : NumSeq[i] = t) - 1
 Atom(t, env) == IF IsNumTok(t) THEN NumVal(t) ELSE IF t \in DOMAIN env THEN env[t] ELSE UNDEF
 Eval(ts, env) ==
   CASE Len(ts) = 1 -> Atom(ts[1], env)
@@ -185,6 +187,8 @@ CompressAll(names, z, s) == IF z > Len(names) THEN s ELSE CompressAll(names, z +
 RECURSIVE ExpandAll(_, _, _, _)    \* for z = from .. upto : ExpandLine(vals[ofs + z], z)
 ExpandAll(vals, z, upto, s) ==
   IF z > upto THEN s ELSE ExpandAll(vals, z + 1, upto, ExpandLine(IF z <= Len(vals) THEN vals[z] ELSE <<>>, z, s))
+\* a straddling match needs two stored tokens side by side
+HasAdjacentTokens(s) == \E i \in 1..(Len(s) - 3) : IsCtrl(s[i]) /\ IsCtrl(s[i + 1]) /\ IsCtrl(s[i + 2]) /\ IsCtrl(s[i + 3])
 RECURSIVE StraddleIn(_, _, _, _)
 StraddleIn(vals, z, upto, s) ==
   IF z > upto THEN FALSE
@@ -209,7 +213,7 @@ BaseOut == [kind |-> "WAIT", nest |-> 0, tag |-> <<>>, mac |-> <<>>, pnames |-> 
 InitSt(files, bins) ==
   [tags |-> <<>>, outs |-> <<>>, macros |-> <<>>, cm |-> C!InitM, env |-> <<>>,
    loc |-> [mom |-> NoLoc, stack |-> <<>>, cnt |-> 0],
-   delivered |-> <<>>, errs |-> 0, devs |-> {}, crashed |-> FALSE, currLine |-> 0, momLine |-> 0, currFile |-> "", pass |-> 1,
+   delivered |-> <<>>, errs |-> 0, devs |-> {}, pdevs |-> {}, crashed |-> FALSE, currLine |-> 0, momLine |-> 0, currFile |-> "", pass |-> 1,
    files |-> files, bins |-> bins]
 
 Err(st) == [st EXCEPT !.errs = @ + 1]
@@ -229,8 +233,8 @@ ScopeChain(loc) == IF loc.mom = NoLoc THEN <<>> ELSE <<loc.mom>> \o UpToNone(loc
 ScopeId(x) == <<x.birth, x.depth>>
 
 \* --- positions (GetErrorPos and the *_GetPos functions), kept with every delivered statement ----------
-IrpPos(t) ==
-  LET pit == IF Fix("IrpPosNext") THEN (IF t.parIter = 0 THEN 1 ELSE t.parIter)
+IrpPosF(t, fixed) ==
+  LET pit == IF fixed THEN (IF t.parIter = 0 THEN 1 ELSE t.parIter)
              ELSE (IF t.parIter = 0 THEN 0 ELSE 1)           \* as coded: the two branches are swapped
       wrap == t.lineZ - 1 <= 0
       lz == IF wrap THEN t.lineCnt ELSE t.lineZ - 1
@@ -242,6 +246,7 @@ IrpPos(t) ==
              ELSE IF pz < 1 \/ pz > Len(t.params) THEN <<>> ELSE JoinWith(grp, COMMA)
   IN [k |-> IF t.kind = "IRPC" THEN "IRPC" ELSE IF t.parIter = 0 THEN "IRP" ELSE "IRPN",
       n |-> val, i |-> 0, b |-> lz]
+IrpPos(t) == IrpPosF(t, Fix("IrpPosNext"))
 LoopPos(t) ==
   LET wrap == t.lineZ - 1 <= 0
   IN [k |-> t.kind, n |-> <<>>, i |-> IF wrap THEN t.parZ - 1 ELSE t.parZ, b |-> IF wrap THEN t.lineCnt ELSE t.lineZ - 1]
@@ -258,12 +263,15 @@ NativeChain(tags) ==
   ELSE IF Head(tags).kind = "FILE" THEN <<TagPos(Head(tags))>> ELSE NativeChain(Tail(tags)) \o <<TagPos(Head(tags))>>
 FileTags(tags) == SelectSeq(tags, LAMBDA t : t.kind = "FILE")
 PosOf(tags) ==
-  [native |-> NativeChain(tags),
-   gnu |-> [i \in DOMAIN FileTags(tags) |-> TagPos(FileTags(tags)[i])]]      \* [1] = innermost
+  LET ft == FileTags(tags)
+  IN [native |-> NativeChain(tags), gnu |-> [i \in DOMAIN ft |-> TagPos(ft[i])]]      \* [1] = innermost
 
 Deliver(st, l) ==
-  [st EXCEPT !.delivered = Append(@, [l |-> l, sc |-> [i \in DOMAIN ScopeChain(st.loc) |-> ScopeId(ScopeChain(st.loc)[i])],
-                                        pos |-> PosOf(st.tags)])]
+  LET ch == ScopeChain(st.loc)
+      wrongIrp == ~Fix("IrpPosNext") /\ \E i \in DOMAIN st.tags : st.tags[i].kind \in {"IRP", "IRPC"}
+                                                               /\ IrpPosF(st.tags[i], TRUE) # IrpPosF(st.tags[i], FALSE)
+  IN [st EXCEPT !.delivered = Append(@, [l |-> l, sc |-> [i \in DOMAIN ch |-> ScopeId(ch[i])], pos |-> PosOf(st.tags)]),
+                !.pdevs = IF wrongIrp THEN @ \cup {"IrpPosNext"} ELSE @]
 
 (***************************************************************************)
 (* 4. GetNextLine and the processors                                       *)
@@ -313,7 +321,7 @@ MacroProcessor(st) ==
       l3 == IF t.usesNum THEN ExpandLine(t.numArgs, TokNUM, l2) ELSE l2
       l4 == IF t.usesAll THEN ExpandLine(t.allArgs, TokALL, l3) ELSE l3
       l5 == IF t.intLabel THEN ExpandLine(t.saveLabel, TokLAB, l4) ELSE l4
-      sd == IF ~Fix("TokenStraddle") /\ StraddleIn(t.params, 1, t.parCnt, l0) THEN Dev(st, "TokenStraddle") ELSE st
+      sd == IF ~Fix("TokenStraddle") /\ HasAdjacentTokens(l0) /\ StraddleIn(t.params, 1, t.parCnt, l0) THEN Dev(st, "TokenStraddle") ELSE st
       s1 == IF t.lineZ = 1 /\ ~t.glob THEN PushLoc(sd) ELSE sd
       t2 == [t EXCEPT !.lineZ = @ + 1, !.isEmpty = (t.lineZ + 1 > t.lineCnt),
                       !.pushed = @ \/ (t.lineZ = 1 /\ ~t.glob)]
@@ -576,7 +584,7 @@ ExpandSHIFT(st, l) ==
                    s1 == [st EXCEPT !.tags[i] = t2]
                IN IF excess /\ ~Fix("ShiftExcess") THEN Dev(s1, "ShiftExcess") ELSE s1
 
-FileNameOf(a) == LET s == Without(a, QUOTE) IN IF s = <<>> THEN "" ELSE s[1]
+FileNameOf(a) == Glue(Without(a, QUOTE))
 ExpandINCLUDE(st, l) ==
   IF ~st.cm.ifasm THEN st
   ELSE LET a == ArgsOf(l)
@@ -678,11 +686,12 @@ ResolveLine(e, D) ==
   IN [i \in DOMAIN e.l |->
         IF i <= n THEN (IF IsLabelDef(e) /\ i = 1 THEN Mangle(e.l[i], own) ELSE ResolveTok(e.l[i], e.sc, D))
         ELSE ResolveTok(e.l[i], e.sc, D)]
-Resolve(flat) == [i \in DOMAIN flat |-> ResolveLine(flat[i], Defs(flat))]
+Resolve(flat) == LET D == Defs(flat) IN [i \in DOMAIN flat |-> ResolveLine(flat[i], D)]
 
 \* "private per expansion": no two label definitions of the flat list collide after resolution
-DefNames(flat) == [i \in DOMAIN flat |-> IF IsLabelDef(flat[i]) THEN Resolve(flat)[i][1] ELSE ""]
-NoDoubleDef(flat) == \A i, j \in DOMAIN flat : (i < j /\ IsLabelDef(flat[i]) /\ IsLabelDef(flat[j])) => DefNames(flat)[i] # DefNames(flat)[j]
+DefNames(flat) == LET R == Resolve(flat) IN [i \in DOMAIN flat |-> IF IsLabelDef(flat[i]) THEN R[i][1] ELSE ""]
+NoDoubleDef(flat) == LET N == DefNames(flat)
+                     IN \A i, j \in DOMAIN flat : (i < j /\ IsLabelDef(flat[i]) /\ IsLabelDef(flat[j])) => N[i] # N[j]
 
 (***************************************************************************)
 (* 8. Declarative side: the constructs carried out by hand                 *)
@@ -741,7 +750,15 @@ InitD(files, bins) ==
    exit |-> FALSE, indef |-> FALSE, files |-> files, bins |-> bins, fuel |-> 5000]
 
 Indef(S) == [S EXCEPT !.indef = TRUE]
-DOut(S, l) == [S EXCEPT !.out = Append(@, [l |-> l, sc |-> S.scopes])]
+\* position of the statement being carried out: the innermost file with the line last read from it, and on top of
+\* it every construct being expanded with (what it is expanding, iteration, body line last taken from it)
+RECURSIVE DNative(_)
+DNative(fr) == IF fr = <<>> THEN <<>> ELSE IF Head(fr).k = "FILE" THEN <<Head(fr)>> ELSE DNative(Tail(fr)) \o <<Head(fr)>>
+DPos(S) == [native |-> DNative(S.frames), gnu |-> SelectSeq(S.frames, LAMBDA f : f.k = "FILE")]
+DOut(S, l) == [S EXCEPT !.out = Append(@, [l |-> l, sc |-> S.scopes, pos |-> DPos(S)])]
+Frame(k, n, i) == [k |-> k, n |-> n, i |-> i, b |-> 0]
+AtLine(S, b) == [S EXCEPT !.frames = <<[Head(@) EXCEPT !.b = b]>> \o Tail(@)]
+LineNo(src, j) == IF src.kind = "FILE" THEN src.phys[j] ELSE j
 DLabel(S, l) == IF LabOf(l) # <<>> THEN DOut(S, LabOf(l) \o <<SP>>) ELSE S
 OpenScope(S, glob, body) == IF glob \/ body = <<>> THEN S ELSE [S EXCEPT !.scopes = <<<<Len(S.out) + 1, Len(S.scopes) + 1>>>> \o @]
 CloseScope(S, glob, body) == IF glob \/ body = <<>> THEN S ELSE [S EXCEPT !.scopes = Tail(@)]
@@ -750,6 +767,11 @@ CloseScope(S, glob, body) == IF glob \/ body = <<>> THEN S ELSE [S EXCEPT !.scop
 SrcLine(src, k, S) ==
   IF src.kind = "MACRO" THEN SubstN(src.lines[k], MFrameNames(Head(S.mstack)), MFrameVals(Head(S.mstack))) ELSE src.lines[k]
 SrcText(src, S) == [k \in DOMAIN src.lines |-> SrcLine(src, k, S)]
+
+\* a file as a source: logical lines (continuations joined) and the physical line number each one ends on
+RECURSIVE PhysFrom(_, _, _)
+PhysFrom(raw, j, acc) == IF j > Len(raw) THEN <<>> ELSE <<acc + 1 + Count(raw[j], CONT)>> \o PhysFrom(raw, j + 1, acc + 1 + Count(raw[j], CONT))
+FileSrc(raw) == [kind |-> "FILE", lines |-> [i \in DOMAIN raw |-> Without(raw[i], CONT)], phys |-> PhysFrom(raw, 1, 0)]
 
 RECURSIVE DSeq(_, _, _), DLoop(_, _, _, _, _, _), DStmt(_, _, _)
 
@@ -762,11 +784,14 @@ DLoop(kind, names, vals, body, glob, S) ==
         IN IF ~more \/ body = <<>> THEN T
            ELSE LET text == IF kind \in {"REPT", "WHILE"} THEN body
                             ELSE [k \in DOMAIN body |-> SubstN(body[k], names, vals[it])]
-                    T1 == OpenScope([T EXCEPT !.fuel = @ - 1], glob, body)
+                    disp == CASE kind = "IRP" -> vals[it][1] [] kind = "IRPN" -> JoinWith(vals[it], COMMA)
+                              [] kind = "IRPC" -> <<"'">> \o vals[it][1] \o <<"'">> [] OTHER -> <<>>
+                    fr == Frame(kind, disp, IF kind \in {"REPT", "WHILE"} THEN it ELSE 0)
+                    T1 == OpenScope([T EXCEPT !.fuel = @ - 1, !.frames = <<fr>> \o Tail(@)], glob, body)
                     T2 == DSeq([kind |-> "PLAIN", lines |-> text], 1, T1)
                     T3 == CloseScope(T2, glob, body)
                 IN IF T3.exit THEN [T3 EXCEPT !.exit = FALSE] ELSE Iter(it + 1, T3)
-      S1 == [S EXCEPT !.frames = <<"LOOP">> \o @]
+      S1 == [S EXCEPT !.frames = <<Frame(kind, <<>>, 0)>> \o @]
       R == Iter(1, S1)
   IN [R EXCEPT !.frames = Tail(@)]
 
@@ -796,7 +821,7 @@ DStmt(src, k, S) ==
                               glob |-> flag("GLOBALSYMBOLS", "NOGLOBALSYMBOLS"), intLabel |-> flag("INTLABEL", "NOINTLABEL")]
                   IN [S |-> IF ok THEN [S0 EXCEPT !.macros = [x \in DOMAIN S0.macros \cup {mac.name} |-> IF x = mac.name THEN mac ELSE S0.macros[x]]]
                             ELSE Indef(S0), next |-> m + 1]
-             ELSE LET S1 == DLabel(S0, l)
+             ELSE LET S1 == AtLine(DLabel(S0, l), LineNo(src, m))
                       glob == GlobOf(a)
                       okc == LoopCtrlOK(a)
                   IN CASE op = "REPT" ->
@@ -833,18 +858,19 @@ DStmt(src, k, S) ==
           IN [S |-> IF cm2.errs > S1.cm.errs \/ (op = "IF" /\ on /\ v = UNDEF) THEN Indef(S2) ELSE S2, next |-> k + 1]
      ELSE IF ~on THEN [S |-> S0, next |-> k + 1]
      ELSE IF op = "EXITM"
-     THEN IF a # <<>> \/ S0.frames = <<>> \/ Head(S0.frames) = "FILE" THEN [S |-> Indef(S0), next |-> k + 1]
+     THEN IF a # <<>> \/ S0.frames = <<>> \/ Head(S0.frames).k = "FILE" THEN [S |-> Indef(S0), next |-> k + 1]
           ELSE [S |-> [DLabel(S0, l) EXCEPT !.exit = TRUE], next |-> k + 1]
      ELSE IF op = "SHIFT"
-     THEN IF a # <<>> \/ S0.frames = <<>> \/ Head(S0.frames) = "FILE" THEN [S |-> Indef(S0), next |-> k + 1]
+     THEN IF a # <<>> \/ S0.frames = <<>> \/ Head(S0.frames).k = "FILE" THEN [S |-> Indef(S0), next |-> k + 1]
           ELSE IF S0.mstack = <<>> \/ Head(S0.mstack).list = <<>> THEN [S |-> DLabel(S0, l), next |-> k + 1]
           ELSE LET f == Head(S0.mstack)
                    f2 == [f EXCEPT !.list = Tail(@), !.argc = Len(f.list) - 1, !.allargs = JoinWith(Tail(f.list), COMMA), !.fewer = FALSE]
                IN [S |-> [DLabel(S0, l) EXCEPT !.mstack = <<f2>> \o Tail(@)], next |-> k + 1]
      ELSE IF op = "INCLUDE"
      THEN IF Len(a) # 1 \/ FileNameOf(a[1]) \notin DOMAIN S0.files THEN [S |-> Indef(S0), next |-> k + 1]
-          ELSE LET S1 == [DLabel(S0, l) EXCEPT !.frames = <<"FILE">> \o @]
-                   S2 == DSeq([kind |-> "PLAIN", lines |-> S0.files[FileNameOf(a[1])]], 1, S1)
+          ELSE LET fn == FileNameOf(a[1])
+                   S1 == [DLabel(S0, l) EXCEPT !.frames = <<Frame("FILE", <<fn>>, 0)>> \o @]
+                   S2 == DSeq(FileSrc(S0.files[fn]), 1, S1)
                IN [S |-> [S2 EXCEPT !.frames = Tail(@)], next |-> k + 1]
      ELSE IF MacroEnd(op) THEN [S |-> Indef(S0), next |-> k + 1]
      ELSE IF op \in DOMAIN S0.macros
@@ -853,7 +879,7 @@ DStmt(src, k, S) ==
               f == [pnames |-> mac.pnames, list |-> b.list, argc |-> Len(b.list), fewer |-> b.given < Len(mac.pnames),
                     allargs |-> JoinWith(a, COMMA), attr |-> AttrOf(l), label |-> LabOf(l), intLabel |-> mac.intLabel]
               S1 == IF mac.intLabel THEN S0 ELSE DLabel(S0, l)
-              S2 == OpenScope([S1 EXCEPT !.mstack = <<f>> \o @, !.frames = <<"MACRO">> \o @, !.fuel = @ - 1], mac.glob, mac.lines)
+              S2 == OpenScope([S1 EXCEPT !.mstack = <<f>> \o @, !.frames = <<Frame("MACRO", <<mac.name>>, 0)>> \o @, !.fuel = @ - 1], mac.glob, mac.lines)
               S3 == DSeq([kind |-> "MACRO", lines |-> mac.lines], 1, S2)
               S4 == CloseScope([S3 EXCEPT !.mstack = Tail(@), !.frames = Tail(@), !.exit = FALSE], mac.glob, mac.lines)
           IN [S |-> IF b.bad \/ S1.fuel <= 0 THEN Indef(S1) ELSE S4, next |-> k + 1]
@@ -878,14 +904,13 @@ DSeq(src, k, S) ==
   LET RECURSIVE Go(_, _, _)
       Go(j, T, lvl) ==
         IF j > Len(src.lines) \/ T.indef THEN T
-        ELSE LET r == DStmt(src, j, T)
+        ELSE LET r == DStmt(src, j, AtLine(T, LineNo(src, j)))
              IN IF r.S.exit THEN [r.S EXCEPT !.cm = C!DoRestoreIFs(r.S.cm, lvl)] ELSE Go(r.next, r.S, lvl)
   IN Go(k, S, Len(S.cm.stk))
 
 \* EXITM leaves only the innermost construct: a FILE frame cannot be left by it (error in the code)
 ExpandDecl(files, bins, main) ==
-  LET S == DSeq([kind |-> "PLAIN", lines |-> [i \in DOMAIN files[main] |-> Without(files[main][i], CONT)]], 1,
-                [InitD([f \in DOMAIN files |-> [i \in DOMAIN files[f] |-> Without(files[f][i], CONT)]], bins) EXCEPT !.frames = <<"FILE">>])
+  LET S == DSeq(FileSrc(files[main]), 1, [InitD(files, bins) EXCEPT !.frames = <<Frame("FILE", <<main>>, 0)>>])
   IN [flat |-> Resolve(S.out), raw |-> S.out, indef |-> S.indef \/ S.cm.stk # <<>> \/ S.exit]
 
 MachineFlat(st) == Resolve(st.delivered)
